@@ -515,7 +515,10 @@ func gen(w *kit.Out, r *kit.Rand, tier string) {
 
 	// ---- 3. structured random
 	w.Case("random-structured")
-	n := 5000 * scale
+	n := 5000
+	if thorough {
+		n = 400000
+	}
 	for i := 0; i < n; i++ {
 		switch k := r.Intn(100); {
 		case k < 30:
@@ -635,7 +638,7 @@ func gen(w *kit.Out, r *kit.Rand, tier string) {
 
 	// ---- 4. uniformly random bit patterns (exponents far apart: exercises the absorb / overflow / underflow paths)
 	w.Case("random-uniform")
-	for i := 0; i < 600*scale; i++ {
+	for i := 0; i < n/8; i++ {
 		w.Op("%s %016x %016x", kit.Pick(r, bin64), r.U64(), r.U64())
 		w.Op("%s %08x %08x", kit.Pick(r, bin32), uint32(r.U64()), uint32(r.U64()))
 	}
